@@ -3,6 +3,8 @@
 package attestations
 
 import (
+	"math"
+
 	"github.com/ethereum/go-ethereum/accounts/abi"
 
 	errorsmod "cosmossdk.io/errors"
@@ -151,6 +153,12 @@ func ABIDecodeStateAttestation(data []byte) (*StateAttestation, error) {
 	timestampSeconds, ok := unpacked[1].(uint64)
 	if !ok {
 		return nil, errorsmod.Wrap(ErrInvalidAttestationData, "invalid timestamp type")
+	}
+
+	// the timestamp is attested in seconds and stored in nanoseconds: refuse values whose
+	// conversion does not fit in 64 bits instead of letting the product wrap around
+	if timestampSeconds > math.MaxUint64/nanosPerSecond {
+		return nil, errorsmod.Wrapf(ErrInvalidAttestationData, "timestamp %d seconds overflows nanosecond representation", timestampSeconds)
 	}
 
 	return &StateAttestation{
